@@ -4,6 +4,7 @@ import (
 	"bytes"
 	"fmt"
 	"mime/multipart"
+	"net/http"
 	"net/textproto"
 	"net/url"
 	"strings"
@@ -240,6 +241,11 @@ func ValidPath(p string) bool {
 			return false
 		}
 	}
-	_, err := url.ParseRequestURI(p)
+	if _, err := url.ParseRequestURI(p); err != nil {
+		return false
+	}
+	// the harness builds the request from "http://host" + p, where a '#' starts a fragment that is parsed as well
+	// (ParseRequestURI above does not look at fragments): what cannot be built cannot be sent
+	_, err := http.NewRequest("GET", "http://"+Host+p, nil)
 	return err == nil
 }
